@@ -754,10 +754,13 @@ func ruleBlobProvenance(c *Check, p *Prog) {
 	for _, step := range steps {
 		ctx := &Ctx{Fn: step}
 		var lit *ssa.Alloc
-		for _, b := range step.Blocks {
-			for _, in := range b.Instrs {
-				if al, ok := in.(*ssa.Alloc); ok && al.Type().String() == "*"+rootPath+"/types.SignedData" && al.Heap {
-					lit = al
+		// the literal may sit in a closure of the step (a loop body wrapped in a func literal)
+		for _, cx := range bodyCtxs(step) {
+			for _, b := range cx.Fn.Blocks {
+				for _, in := range b.Instrs {
+					if al, ok := in.(*ssa.Alloc); ok && al.Type().String() == "*"+rootPath+"/types.SignedData" && al.Heap {
+						lit, ctx = al, cx
+					}
 				}
 			}
 		}
